@@ -245,16 +245,29 @@ class Conc:
                  for x, e in n["asg"]]
             return f'<var {" ".join(a)}/>{nl}'
         if k == "if":
+            if n["ref"] > 0:
+                # the test reads the width (2) of another shape: value = the literal of the condition
+                test = self.rnd.choice(["{{{{#n{r}~w - 2 + {v}}}}}", "{{{{eq(#n{r}~w, 2) * {v}}}}}", "{{{{gt(#n{r}~h, 1) and {v}}}}}"]).format(r=n["ref"], v=n["cond"]["v"])
+                return f'<if test="{test}">{self.lead}{kids}</if>{nl}'
             return f'<if test="{expr_str(n["cond"], False)}">{self.lead}{kids}</if>{nl}'
         if k == "loop":
             if n["form"] == "for":
-                data = self.rnd.choice([", ", ","]).join(fmtnum((i + 1) * self.vscale) for i in range(n["cnt"]))
+                sep = self.rnd.choice([", ", ","])
+                items = [fmtnum((i + 1) * self.vscale) for i in range(n["cnt"])]
+                data = sep.join(items)
+                pre = ""
+                # the list, or its first part, may be held by a variable (a list value, the empty
+                # list included: a variable standing in a list contributes its items)
+                k = self.rnd.choice([None, None, len(items), len(items) - 1, 0]) if items else 0
+                if k is not None and k >= 0:
+                    pre = f'<var fl{i}="{sep.join(items[:k])}"/>'
+                    data = sep.join([f"$fl{i}"] + items[k:])
                 a = [f'var="{n["lv"]}"', f'data="{data}"']
                 if n["rd"] != "-":
                     a.append(f'idx-var="{n["rd"]}"')
                 elif self.rnd.random() < 0.3:
                     a.append('idx-var="unusedidx"')
-                return f'<for {" ".join(a)}>{self.lead}{kids}</for>{nl}'
+                return f'{pre}<for {" ".join(a)}>{self.lead}{kids}</for>{nl}'
             if n["form"] == "count":
                 if n["cond"]["t"] == "var":
                     a = [self.rnd.choice([f'count="${n["cond"]["x"]}"', f'count="{{{{${n["cond"]["x"]}}}}}"'])]
